@@ -244,6 +244,19 @@ enum How {
     Pair,
     BindConnect,
     FromFd,
+    /// an inherited listener bound in the abstract namespace (systemd `ListenStream=@name`): it has no path
+    FromFdAbstract,
+}
+
+/// A std listener in the abstract namespace and a connected (non-blocking) client of it.
+fn abstract_listener(path: &std::path::Path) -> Result<(OwnedFd, std::os::unix::net::UnixStream), String> {
+    use std::os::linux::net::SocketAddrExt;
+    let name = format!("zlink-verif-{}-{}", std::process::id(), path.file_name().and_then(|f| f.to_str()).unwrap_or("x"));
+    let addr = std::os::unix::net::SocketAddr::from_abstract_name(name.as_bytes()).map_err(|e| e.to_string())?;
+    let l = std::os::unix::net::UnixListener::bind_addr(&addr).map_err(|e| e.to_string())?;
+    let c = std::os::unix::net::UnixStream::connect_addr(&addr).map_err(|e| e.to_string())?;
+    c.set_nonblocking(true).map_err(|e| e.to_string())?;
+    Ok((l.into(), c))
 }
 
 macro_rules! pairs {
@@ -273,6 +286,14 @@ async fn tokio_pair(how: How, path: &std::path::Path) -> Result<(zlink_tokio::un
             let (s, c) = futures_util::join!(l.accept(), zlink_tokio::unix::connect(path));
             Ok((c.map_err(|e| format!("{e:?}"))?, s.map_err(|e| format!("{e:?}"))?))
         }
+        How::FromFdAbstract => {
+            let (fd, c) = abstract_listener(path)?;
+            // a listener that cannot be built from a valid inherited descriptor is a finding, not a harness problem
+            let mut l = zlink_tokio::unix::Listener::try_from(fd).map_err(|e| format!("VIOLATION: Listener::try_from(inherited descriptor of a listener in the abstract namespace): {e:?}"))?;
+            let s = l.accept().await.map_err(|e| format!("{e:?}"))?;
+            let c = tokio::net::UnixStream::from_std(c).map_err(|e| e.to_string())?;
+            Ok((Connection::new(zlink_tokio::unix::Stream::from(c)), s))
+        }
     }
 }
 
@@ -293,6 +314,13 @@ async fn smol_pair(how: How, path: &std::path::Path) -> Result<(zlink_smol::unix
             let mut l = zlink_smol::unix::Listener::try_from(fd).map_err(|e| format!("{e:?}"))?;
             let (s, c) = futures_util::join!(l.accept(), zlink_smol::unix::connect(path));
             Ok((c.map_err(|e| format!("{e:?}"))?, s.map_err(|e| format!("{e:?}"))?))
+        }
+        How::FromFdAbstract => {
+            let (fd, c) = abstract_listener(path)?;
+            let mut l = zlink_smol::unix::Listener::try_from(fd).map_err(|e| format!("VIOLATION: Listener::try_from(inherited descriptor of a listener in the abstract namespace): {e:?}"))?;
+            let s = l.accept().await.map_err(|e| format!("{e:?}"))?;
+            let c = smol::Async::new(c).map_err(|e| e.to_string())?;
+            Ok((Connection::new(zlink_smol::unix::Stream::from(c)), s))
         }
     }
 }
@@ -337,6 +365,8 @@ fn transfer(c: &XCase, rep: &mut Report, dir: &std::path::Path) {
                 phase(&format!("{:?}:{} seed {}", how, kind.name(), 0), true);
                 let r = pairs!(kind, how, path, {
                     match tokio_pair(how, &path).await {
+                        Err(e) if e.starts_with("VIOLATION: ") => Err(("C19/inherited-listener-refused".to_string(), e["VIOLATION: ".len()..].to_string())),
+                        Err(e) if e.starts_with("VIOLATION: ") => Err(("C19/inherited-listener-refused".to_string(), e["VIOLATION: ".len()..].to_string())),
                         Err(e) => Err(("inconclusive".to_string(), format!("could not create socket pair: {e}"))),
                         Ok((a, b)) => {
                             phase("exchange", false);
@@ -346,6 +376,8 @@ fn transfer(c: &XCase, rep: &mut Report, dir: &std::path::Path) {
                     }
                 }, {
                     match smol_pair(how, &path).await {
+                        Err(e) if e.starts_with("VIOLATION: ") => Err(("C19/inherited-listener-refused".to_string(), e["VIOLATION: ".len()..].to_string())),
+                        Err(e) if e.starts_with("VIOLATION: ") => Err(("C19/inherited-listener-refused".to_string(), e["VIOLATION: ".len()..].to_string())),
                         Err(e) => Err(("inconclusive".to_string(), format!("could not create socket pair: {e}"))),
                         Ok((a, b)) => {
                             phase("exchange", false);
@@ -932,7 +964,7 @@ pub fn run(cfg: &Cfg) -> Report {
     let heavy = cfg.layer == "asan" || cfg.layer == "tsan";
     let mut rng = cfg.rng(191);
     let kinds = [Kind::TokioCurrent, Kind::TokioMulti, Kind::Smol];
-    let hows = [How::Pair, How::BindConnect, How::FromFd];
+    let hows = [How::Pair, How::BindConnect, How::FromFd, How::FromFdAbstract];
     let only = cfg.opt("part");
     // (1) transfers
     if only.is_none() || only == Some("transfer") {
@@ -941,8 +973,8 @@ pub fn run(cfg: &Cfg) -> Report {
             let idx = k * cfg.shards as u64 + cfg.shard as u64;
             let c = XCase {
                 kind: kinds[(idx % 3) as usize],
-                how: hows[((idx / 3) % 3) as usize],
-                nconn: [1, 2, 4, 8][((idx / 9) % 4) as usize],
+                how: hows[((idx / 3) % 4) as usize],
+                nconn: [1, 2, 4, 8][((idx / 12) % 4) as usize],
                 nmsg: rng.range(3, if cfg.thorough { 40 } else { 16 }),
                 max: if k % 12 == 5 { 1 << 20 } else if k % 4 == 1 { 300_000 } else { 20_000 },
                 pace_w: *rng.pick(&[0, 0, 1, 3]),
